@@ -103,8 +103,11 @@ func c11Check(r *Run, src string, class string) bool {
 	for _, mode := range c11Modes {
 		sig, detail, accepted := c11Judge(src, mode, 5*time.Second)
 		if sig == "hang" {
-			// retry once with a long limit before believing it
+			// retry with long limits before believing it: a busy machine is not a hang
 			sig, detail, accepted = c11Judge(src, mode, 60*time.Second)
+			if sig == "hang" {
+				sig, detail, accepted = c11Judge(src, mode, 300*time.Second)
+			}
 		}
 		r.Count(string(mode)+":"+src, !accepted || len(strings.Fields(src)) >= 3)
 		if accepted {
@@ -158,7 +161,7 @@ func TestC11(t *testing.T) {
 		"(thorough: a strided third of length 3) joined with and without spaces, rapid-drawn sequences of length 3-14; byte/token mutations (delete, duplicate, swap, truncate, insert hostile fragment) "+
 		"of the repository's .py files; structured programs from the scope-structure generator (nested functions/classes/lambdas/comprehensions with coinciding names, global/nonlocal, legal and illegal) and the statement generator, intact or with one hostile fragment inserted; size class (deep nesting, >64KiB functions); each in exec, eval and single mode. Oracle: Compile returns a code object, or an exception of the SyntaxError "+
 		"family carrying filename, lineno and offset, within a watchdog (5 s, retried once with 60 s). Non-trivial: rejected, or accepted with >=3 tokens; distinct by (mode, text).", len(c11Alphabet)))
-	r.Extra("assumptions", []string{"a hang is believed only after the 60 s retry"})
+	r.Extra("assumptions", []string{"a hang is believed only after retries with 60 s and 300 s limits"})
 	r.ReplayKnown()
 	// exhaustive short sequences
 	if r.Shard == 0 {
